@@ -1092,9 +1092,12 @@ pub fn gen_file_scn(rng: &mut Rng, _tier: Tier, prop: &str, em: &Emphasis) -> Fi
         }
     }
     let mut post = Vec::new();
-    if sub != "valid" && rng.below(100) < em.post || (sub == "valid" && rng.chance(1, 3)) {
+    // the unoptimised build exists to find recursion that grows with the input: there a third of
+    // the files get a long run (the optimised build: one in twelve of those with byte faults)
+    let want_run = cfg!(debug_assertions) && rng.chance(1, 3);
+    if sub != "valid" && rng.below(100) < em.post || (sub == "valid" && rng.chance(1, 3)) || want_run {
         let total: usize = msgs.iter().map(|m| m.body.len() + 4).sum();
-        let n = *rng.pick(&[1usize, 1, 2, 3]);
+        let n = if want_run && rng.chance(1, 2) { 0 } else { *rng.pick(&[1usize, 1, 2, 3]) };
         for _ in 0..n {
             let at = rng.below(total.max(1));
             post.push(match rng.below(8) {
@@ -1117,7 +1120,7 @@ pub fn gen_file_scn(rng: &mut Rng, _tier: Tier, prop: &str, em: &Emphasis) -> Fi
                 _ => ByteOp::Truncate { at: total.saturating_sub(rng.range(1, 4)) },
             });
         }
-        if rng.chance(1, 12) {
+        if rng.chance(1, 12) || want_run {
             // a long run of one byte value (or of a short pattern) at a message boundary or anywhere:
             // whatever the parsers do per byte, they do it thousands of times
             let pattern: Vec<u8> = match rng.below(8) {
